@@ -1,5 +1,5 @@
 /- COMMITTED LAST-GOOD TRANSLATION (DESIGN §5) — written by bin/numgo-accept, never by hand.
-A verbatim copy of Generated/NumGo.lean as translated from /repo at 95bf875.
+A verbatim copy of Generated/NumGo.lean as translated from /repo at d5acb02.
 When the translator refuses a function on a later tree, Generated/NumGo.lean aliases the
 definition of the same name here (provided the Go signature recorded in `goSigs` is
 unchanged) and the `num` channel compares it with the Go original. -/
@@ -346,11 +346,11 @@ def UintegerDo (fs : FloatSem) (op : IntegerOp) (ia : BitVec 64) (b : Sx fs.F) :
     let ib : BitVec 64 := i
     match op with
     | .ShiftLeft =>
-      .ok (Sx.uint (ia <<< (BitVec.toNat ib)))
+      .ok (Sx.uint (shl ia ib))
     | .ShiftRightArith =>
-      .ok (Sx.uint (ia >>> (BitVec.toNat ib)))
+      .ok (Sx.uint (shrU ia ib))
     | .ShiftRightLog =>
-      .ok (Sx.uint (ia >>> (BitVec.toNat ib)))
+      .ok (Sx.uint (shrU ia ib))
     | .Modulo =>
       if ib == 0#64 then .panic else
       .ok (Sx.uint (BitVec.umod ia ib))
@@ -364,11 +364,11 @@ def UintegerDo (fs : FloatSem) (op : IntegerOp) (ia : BitVec 64) (b : Sx fs.F) :
     let ib : BitVec 64 := i
     match op with
     | .ShiftLeft =>
-      .ok (Sx.uint (ia <<< (BitVec.toNat ib)))
+      .ok (Sx.uint (shl ia ib))
     | .ShiftRightArith =>
-      .ok (Sx.uint (ia >>> (BitVec.toNat ib)))
+      .ok (Sx.uint (shrU ia ib))
     | .ShiftRightLog =>
-      .ok (Sx.uint (ia >>> (BitVec.toNat ib)))
+      .ok (Sx.uint (shrU ia ib))
     | .Modulo =>
       if ib == 0#64 then .panic else
       .ok (Sx.uint (BitVec.umod ia ib))
@@ -382,11 +382,11 @@ def UintegerDo (fs : FloatSem) (op : IntegerOp) (ia : BitVec 64) (b : Sx fs.F) :
     let ib : BitVec 64 := BitVec.signExtend 64 i
     match op with
     | .ShiftLeft =>
-      .ok (Sx.uint (ia <<< (BitVec.toNat ib)))
+      .ok (Sx.uint (shl ia ib))
     | .ShiftRightArith =>
-      .ok (Sx.uint (ia >>> (BitVec.toNat ib)))
+      .ok (Sx.uint (shrU ia ib))
     | .ShiftRightLog =>
-      .ok (Sx.uint (ia >>> (BitVec.toNat ib)))
+      .ok (Sx.uint (shrU ia ib))
     | .Modulo =>
       if ib == 0#64 then .panic else
       .ok (Sx.uint (BitVec.umod ia ib))
@@ -411,11 +411,11 @@ def IntegerDo (fs : FloatSem) (op : IntegerOp) (a : Sx fs.F) (b : Sx fs.F) : Res
       let ib : BitVec 64 := i_
       match op with
       | .ShiftLeft =>
-        .ok (Sx.int (ia <<< (BitVec.toNat ib)))
+        .ok (Sx.int (shl ia ib))
       | .ShiftRightArith =>
-        .ok (Sx.int (BitVec.sshiftRight ia (BitVec.toNat ib)))
+        .ok (Sx.int (shrS ia ib))
       | .ShiftRightLog =>
-        .ok (Sx.int (ia >>> (BitVec.toNat ib)))
+        .ok (Sx.int (shrU ia ib))
       | .Modulo =>
         if ib == 0#64 then .panic else
         .ok (Sx.int (BitVec.srem ia ib))
@@ -431,11 +431,11 @@ def IntegerDo (fs : FloatSem) (op : IntegerOp) (a : Sx fs.F) (b : Sx fs.F) : Res
       let ib : BitVec 64 := BitVec.signExtend 64 i_
       match op with
       | .ShiftLeft =>
-        .ok (Sx.int (ia <<< (BitVec.toNat ib)))
+        .ok (Sx.int (shl ia ib))
       | .ShiftRightArith =>
-        .ok (Sx.int (BitVec.sshiftRight ia (BitVec.toNat ib)))
+        .ok (Sx.int (shrS ia ib))
       | .ShiftRightLog =>
-        .ok (Sx.int (ia >>> (BitVec.toNat ib)))
+        .ok (Sx.int (shrU ia ib))
       | .Modulo =>
         if ib == 0#64 then .panic else
         .ok (Sx.int (BitVec.srem ia ib))
@@ -458,11 +458,11 @@ def IntegerDo (fs : FloatSem) (op : IntegerOp) (a : Sx fs.F) (b : Sx fs.F) : Res
       let ib : BitVec 64 := i_
       match op with
       | .ShiftLeft =>
-        .ok (Sx.int (ia <<< (BitVec.toNat ib)))
+        .ok (Sx.int (shl ia ib))
       | .ShiftRightArith =>
-        .ok (Sx.int (BitVec.sshiftRight ia (BitVec.toNat ib)))
+        .ok (Sx.int (shrS ia ib))
       | .ShiftRightLog =>
-        .ok (Sx.int (ia >>> (BitVec.toNat ib)))
+        .ok (Sx.int (shrU ia ib))
       | .Modulo =>
         if ib == 0#64 then .panic else
         .ok (Sx.int (BitVec.srem ia ib))
@@ -478,11 +478,11 @@ def IntegerDo (fs : FloatSem) (op : IntegerOp) (a : Sx fs.F) (b : Sx fs.F) : Res
       let ib : BitVec 64 := BitVec.signExtend 64 i_
       match op with
       | .ShiftLeft =>
-        .ok (Sx.int (ia <<< (BitVec.toNat ib)))
+        .ok (Sx.int (shl ia ib))
       | .ShiftRightArith =>
-        .ok (Sx.int (BitVec.sshiftRight ia (BitVec.toNat ib)))
+        .ok (Sx.int (shrS ia ib))
       | .ShiftRightLog =>
-        .ok (Sx.int (ia >>> (BitVec.toNat ib)))
+        .ok (Sx.int (shrU ia ib))
       | .Modulo =>
         if ib == 0#64 then .panic else
         .ok (Sx.int (BitVec.srem ia ib))
